@@ -1,3 +1,4 @@
+import FatVerif.Model.DirAlias
 import FatVerif.Model.Util
 import FatVerif.Model.Basic
 import FatVerif.Model.Lfn
@@ -30,7 +31,9 @@ Probes
   `create_file(name)` in a planted directory; `before`/`after` = ALL slots of the directory's allocated space (64-slot
   fixed root / cluster chain) read back from the image.  The observation is in the arguments; the model answers `ok`
   iff `after = writeEntry before units sfn'` (`DirSlots.checkCreate`), and predicts `ERR 3` (`WriteZero`) exactly when
-  the fixed root has no room (`findFree before n + n > 64`).
+  the fixed root has no room (`findFree before n + n > 64`).  Since F23: the model also runs
+  `DirAlias.checkForExistenceL` on `before`: an alias result must be the raw short name found in `after`
+  (`create-alias-mismatch_<hex>` otherwise), an existing-entry result requires `after = before`, a kind mismatch `ERR 4`.
 * `lfn.remove <alloc> <root|sub> <before-slots> <j> <after-slots|-> => ok | ERR <code> | PANIC`
   `remove` of the `j`-th listed entry (by its unique short name); `ok` iff `after = deleteRange before b e` for that
   entry's range (`DirSlots.checkDelete`).
@@ -85,6 +88,28 @@ def handleReaddir (alloc : Bool) (place : String) (slots : List (List Nat)) : St
 def showRanges (es : List LfnEntry) : String :=
   if es.isEmpty then "-" else ",".intercalate (es.map fun e => s!"{e.beginIdx}:{e.endIdx}")
 
+/-- the part of `char::to_uppercase` (all lfn variants are built with feature `unicode`) the pure driver carries:
+    ASCII and Latin-1, where the mapping is the classical one; other characters are not compared -/
+def upperLatin1 (c : Char) : List Char :=
+  let n := c.toNat
+  if n < 128 then [Char.ofNat (Names.asciiUpper n)]
+  else if n = 0xB5 then [Char.ofNat 0x39C]
+  else if n = 0xDF then ['S', 'S']
+  else if 0xE0 ≤ n ∧ n ≤ 0xFE ∧ n ≠ 0xF7 then [Char.ofNat (n - 32)]
+  else if n = 0xFF then [Char.ofNat 0x178]
+  else [c]
+
+/-- units on which `upperLatin1` is `char::to_uppercase` and into whose images no other supported character maps -/
+def upperSupported (u : Nat) : Bool := u < 0x100 || u == 0xFFFD || u == 0xFFFF
+
+/-- `check_for_existence(name, Some(false))` of the model on the planted directory; `none` = not comparable -/
+def createExistence (before : List (List Nat)) (units : List Nat) :
+    Option (Except Err DirAlias.EntryOrAlias) :=
+  let listed := DirSlots.listing before
+  if units.all upperSupported && listed.all (fun e => e.units.all upperSupported) then
+    some (DirAlias.checkForExistenceL upperLatin1 before (String.ofList (units.map Char.ofNat)) (some false) 70000)
+  else none
+
 def handle (fn : String) (args : List String) : Option String :=
   match fn, args with
   | "lfn.generate", [a, u, c] => do
@@ -109,14 +134,29 @@ def handle (fn : String) (args : List String) : Option String :=
     let units ← unitsOfHex u
     let num := if DirSlots.isDotUnits units then 1 else numParts units.length + 1
     let p := DirSlots.findFree before num
+    -- the directory-level alias choice (`DirAlias.checkForExistenceL`, theorems in Props/C16dir.lean) on the same
+    -- slots; `none` = a character outside the part of `char::to_uppercase` this driver carries (comparison skipped)
+    let existence := createExistence before units
     if as = "-" then
-      some (if place = "root" ∧ p + num > before.length then "ERR 3" else "ok")
+      some (match existence with
+        | some (.error .invalidInput) => "ERR 4"
+        | _ => if place = "root" ∧ p + num > before.length then "ERR 3" else "ok")
     else do
       let after ← bytesListOfHex as
-      let sfn11 := sfnName (after.getD (p + num - 1) [])
-      match DirSlots.checkCreate before after units sfn11 with
-      | none => some "ok"
-      | some msg => some ("create-" ++ msg.replace " " "_")
+      match existence with
+      | some (.ok (.entry _)) =>
+        -- the name is taken: `create_file` opens the existing entry and writes nothing
+        some (if after = before then "ok" else "create-existing-entry-but-slots-changed")
+      | some (.error e) => some s!"create-model-err-{e.code}"
+      | ex =>
+        let sfn11 := sfnName (after.getD (p + num - 1) [])
+        match DirSlots.checkCreate before after units sfn11 with
+        | some msg => some ("create-" ++ msg.replace " " "_")
+        | none =>
+          match ex with
+          | some (.ok (.alias a)) =>
+            some (if a = sfn11 then "ok" else "create-alias-mismatch_" ++ hexOfBytes a)
+          | _ => some "ok"
   | "lfn.remove", [_a, _place, bs, j, as] => do
     let before ← bytesListOfHex bs
     let j ← natOf j
